@@ -317,6 +317,36 @@ def run(ctx):
             ctx.violation("R7.6", b.loc(ln), f"{pretty}|{what}", f"{pretty}: `{what}` can panic: building a URI must complete or report an error"
                           + (" — Uri::from_maybe_shared fails with TooLong for URIs longer than 65534 bytes (InvalidUriChar and Empty are excluded by R7.1-R7.3)" if name == "build" else ""))
 
+    # ---------------- R7.7 generators bind each path-template parameter to the argument of the same name
+    # (a positional binding writes values into the wrong segments as soon as the arguments are declared in another order)
+    tm = F.tmpl()
+    gens = []
+    if tm is not None:
+        for fn in tm["functions"]:
+            if any("push_path_parameter" in q["text"] for q in fn["quotes"]):
+                gens.append(fn)
+    ctx.floor("R7.7", "generator functions emitting push_path_parameter", len(gens), 2)
+    for fn in gens:
+        cn = "conjure_macros" if "conjure-macros" in fn["file"] else "conjure_codegen"
+        gb = [x for x in F.crate(cn).bodies if x.kind == "fn" and x.name == fn["name"] and x.file.endswith(fn["file"].split("/src/")[-1])]
+        if len(gb) != 1:
+            ctx.violation("R7.7", fn["file"], f"{fn['name']}|body", f"{fn['name']}: body not found in the compiled facts")
+            continue
+        gb = gb[0]
+        keyed = 0
+        for bb, t in gb.calls():
+            if t["call"]["name"] in ("index", "get", "get_key_value", "remove") and len(t["args"]) == 2 and any(x in tystr(gb.local_ty(place_local(op_place(t["args"][0])))) for x in ("HashMap", "BTreeMap")):
+                for s_ in dt.value_tracer(gb).sources(t["args"][1]):
+                    chain = []
+                    while s_[0] == "field":
+                        chain.append(s_[2])
+                        s_ = s_[1]
+                    if s_[0] == "call" and gb.blocks[s_[1]]["t"]["call"]["name"] == "next" and "Parameter" in str(chain):
+                        keyed += 1
+        ctx.check(keyed >= 1, "R7.7", gb.loc(), f"{fn['name']}|path-parameter-by-name",
+                  f"{fn['name']}: no lookup of the argument by the path template's parameter name (a map indexed with the `Parameter(name)` payload of the component being written): path arguments bound by position end up in the wrong segments when declared in another order",
+                  instance=f"{fn['name']}: Parameter(name) -> args_by_name[name]")
+
 
 def flat(srcs):
     for s in srcs:
